@@ -1378,6 +1378,164 @@ def suite_many_versions(tier, seed, backends=("sql", "kv")):
     return s
 
 
+# ------------------------------------------------------------------------------------ C05 / C13 / C19: connections whose id strings coincide
+def suite_colliding_client_ids(tier, seed, backends=("sql",)):
+    s = Suite("oracle:connections-with-equal-id-strings-stay-apart")
+    s.rule = ("util.ClientID is '<address>-<2 random bytes>': behind a proxy two open connections get the same string once in a while. The random "
+              "part is pinned (secrets.token_hex patched) so that 2-3 connections through web.start_client carry EQUAL id strings; each sends REQ "
+              "'feed' (same subscription id), one sends CLOSE 'feed', one disconnects, events are published in between; every connection must get "
+              "its own stored answer + EOSE, live events as long as ITS subscription is open, and nothing after its own CLOSE; non-trivial always")
+    rng = rng_for(seed, "collide")
+
+    async def one(backend, n):
+        import falcon
+        from nostr_relay import web, util
+        from . import relay
+        env.load_config(subscription_limit=10)
+        env.patch_clock()
+        env.patch_web_sleep()
+        sc = env.Scratch()
+        st = await (env.sql_storage(sc) if backend == "sql" else env.kv_storage(sc))
+        real_hex = util.secrets.token_hex
+
+        class PinnedSecrets:
+            def __getattr__(self, name):
+                if name == "token_hex":
+                    return lambda nbytes=2: "ab" * nbytes
+                return getattr(real_secrets, name)
+        real_secrets = util.secrets
+        util.secrets = PinnedSecrets()
+        try:
+            for i in range(3):
+                await st.add_event(env.mk_event(i, 1, env.NOW - 100 + i, [], "stored%d" % i))
+            await env.quiesce(st)
+
+            class C:
+                def __init__(self):
+                    self.inbox, self.sent = asyncio.Queue(), []
+
+                async def send(self, text):
+                    self.sent.append(json.loads(text))
+
+                async def recv(self):
+                    item = await self.inbox.get()
+                    if item is None:
+                        raise falcon.WebSocketDisconnected()
+                    return item
+
+                async def close(self, code=1000):
+                    self.sent.append(["CLOSED", code])
+            conns = [C() for _ in range(n)]
+            tasks = [asyncio.create_task(web.start_client(st, c.send, c.recv, c.close, logging.getLogger("verif.collide"), rate_limiter=relay.NullLimiter(),
+                                                          remote_addr="10.9.9.9")) for c in conns]
+
+            async def wait_for(c, pred, what):
+                for _ in range(3000):
+                    await asyncio.sleep(0.002)
+                    if pred(c.sent):
+                        return True
+                return False
+            ok = True
+            for c in conns:
+                c.inbox.put_nowait(json.dumps(["REQ", "feed", {"kinds": [1]}]))
+                ok = await wait_for(c, lambda sent: any(f[0] == "EOSE" for f in sent), "eose") and ok
+            e1 = env.mk_event(0, 1, env.NOW - 5, [], "live1")
+            await st.add_event(e1)
+            await env.quiesce(st)
+            await asyncio.sleep(0.05)
+            conns[0].inbox.put_nowait(json.dumps(["CLOSE", "feed"]))
+            await asyncio.sleep(0.05)
+            e2 = env.mk_event(1, 1, env.NOW - 4, [], "live2")
+            await st.add_event(e2)
+            await env.quiesce(st)
+            await asyncio.sleep(0.05)
+            conns[-1].inbox.put_nowait(None)
+            await asyncio.wait([tasks[-1]], timeout=10)
+            e3 = env.mk_event(2, 1, env.NOW - 3, [], "live3")
+            await st.add_event(e3)
+            await env.quiesce(st)
+            await asyncio.sleep(0.05)
+            obs = []
+            for c in conns:
+                obs.append({"eose": sum(1 for f in c.sent if f[0] == "EOSE"),
+                            "stored": sum(1 for f in c.sent if f[0] == "EVENT" and f[2]["content"].startswith("stored")),
+                            "live": sorted(f[2]["content"] for f in c.sent if f[0] == "EVENT" and f[2]["content"].startswith("live"))})
+            for c in conns:
+                c.inbox.put_nowait(None)
+            await asyncio.wait(tasks, timeout=10)
+            return obs, len({id(c) for c in conns})
+        finally:
+            util.secrets = real_secrets
+            await env.close(st)
+            sc.close()
+    for backend in backends:
+        for n in ((2,) if tier == "quick" else (2, 3, 3)):
+            obs, _ = env.run(one(backend, n))
+            case = {"backend": backend, "connections": n}
+            s.case(case, nontrivial=True)
+            want = []
+            for i in range(n):
+                live = ["live1"] if i == 0 else (["live1", "live2"] if i == n - 1 else ["live1", "live2", "live3"])
+                want.append({"eose": 1, "stored": 3, "live": live})
+            if obs != want:
+                s.violate("connections-share-state", case, "connections whose ClientID strings coincide are not served independently",
+                          expected=want, observed=obs)
+    return s
+
+
+# ------------------------------------------------------------------------------------ C16: values derived from the configuration follow a reload
+def suite_config_reload(tier, seed):
+    s = Suite("oracle:config-derived-values-follow-reload")
+    s.rule = ("the relay's service key decides which kind-31494 events validators.is_service_event admits: Config.service_pubkey must be the "
+              "public key of the CURRENT Config.service_privatekey after every Config.load(reload=True) / assignment (keys A, B, A, none), and a "
+              "storage built after the reload admits service events of the new key and refuses those of the retired key")
+    import coincurve
+    from nostr_relay.config import Config
+    keys = [env.SECRETS[0], env.SECRETS[1], env.SECRETS[0], None, env.SECRETS[2]]
+    env.load_config()
+    seen = []
+    for k in keys:
+        Config.service_privatekey = k
+        got = Config.service_pubkey
+        want = coincurve.PrivateKey(bytes.fromhex(k)).public_key.format()[1:].hex() if k else None
+        seen.append((k[:6] if k else None, got == want))
+        s.case({"key": k[:6] if k else None}, nontrivial=True)
+        if got != want:
+            s.violate("config-value-stale", {"sequence": [x[:6] if x else None for x in keys], "at": len(seen) - 1},
+                      "Config.service_pubkey is %r after the service key was changed, expected %r" % (got and got[:8], want and want[:8]))
+            break
+
+    async def storage_follows():
+        from nostr_relay.errors import StorageError
+        out = []
+        sc = env.Scratch()
+        try:
+            for k in (env.SECRETS[0], env.SECRETS[1]):
+                env.load_config(service_privatekey=k)
+                st = await env.sql_storage(sc, validators=["nostr_relay.validators.is_signed", "nostr_relay.validators.is_service_event"])
+                try:
+                    row = []
+                    for who in (0, 1):
+                        e = env.mk_event(who, 31494, env.NOW - 5, [["d", "auth:x%d" % who]], "svc by %d under %s" % (who, k[:4]))
+                        try:
+                            await st.add_event(e)
+                            row.append(True)
+                        except StorageError:
+                            row.append(False)
+                    out.append(row)
+                finally:
+                    await env.close(st)
+        finally:
+            sc.close()
+        return out
+    rows = env.run(storage_follows())
+    s.case({"storages": 2}, nontrivial=True)
+    if rows != [[True, False], [False, True]]:
+        s.violate("config-value-stale", {"storages": "service key A then B"}, "after the service key changed, kind-31494 events are admitted by key: %r "
+                  "(expected only the current key's: [[True, False], [False, True]])" % rows, observed=rows)
+    return s
+
+
 # ------------------------------------------------------------------------------------ C12
 CAP_SCRIPT = r'''
 import sys, json, asyncio, logging
@@ -2100,6 +2258,8 @@ def registry():
         "oracle:ack-agrees-despite-failed-broadcast": suite_ack_with_failing_broadcast,
         "oracle:kv-close-writes-acknowledged-events": suite_close_drains_queue,
         "oracle:many-older-versions-superseded": suite_many_versions,
+        "oracle:connections-with-equal-id-strings-stay-apart": suite_colliding_client_ids,
+        "oracle:config-derived-values-follow-reload": suite_config_reload,
         "oracle:limit-cap-plain-subscribe": suite_cap_plain_subscribe,
         "oracle:announce-every-accepted-event": suite_announce_all_accepted,
         "oracle:removed-unreachable-after-read": suite_removed_unreachable_after_read,
